@@ -289,8 +289,34 @@ PROPS = {
         "trusted_base": ["go/format", "Go's insensitivity to blanks inside an expression"],
         "assumptions": STD_ASSUME,
     },
-    "C09": {"claimed": False, "na_reason": "differential check built (format twice, compare); printer/reparse model and theorems not yet built",
-            "model_modules": [], "proof_modules": [], "rule": "repo templates + grammar-generated templates", "search_rounds": 0},
+    "C09": {
+        "claimed": True,
+        "model_modules": ["TemplVerif.Model.Ast", "TemplVerif.Model.Printer", "TemplVerif.Model.Reparse"],
+        "proof_modules": ["TemplVerif.Proofs.Printer"],
+        "thorough_shards": 14,
+        "level_text": "PROVED in Lean 4 for the modelled fragment (every node and attribute kind except script/raw elements and {{ }} blocks; Go "
+                      "expressions that are single gofmt-stable lines without comments; constant attribute values that need no re-escaping): "
+                      "C09_print_reparse - for EVERY tree of the fragment that satisfies the invariants of parser-built trees (wfNodes), printing "
+                      "the tree the parser builds from the printer's output prints the same bytes, i.e. fmt(fmt x) = fmt x; C09_wf_reparse - "
+                      "the re-parsed tree satisfies the invariants again; C09_stable. Printer.body transcribes writeNodes / Element.Write / the "
+                      "other Write methods; Reparse.body is parse after print as a function of the tree (flags recomputed from where the printer "
+                      "broke lines, trailing spaces from the separators it wrote, whitespace nodes re-placed). CHECKED on every run: on the REAL "
+                      "parser's tree of every template in the fragment, Printer.body = the text the REAL formatter wrote (byte for byte), "
+                      "Reparse.body = the REAL parser's tree of the formatted text (modulo whitespace-node characters), the tree satisfies "
+                      "wfNodes, and print(reparse t) = print t; and on EVERY accepted input, in or outside the fragment, real fmt(fmt x) = fmt x.",
+        "level_note": "Partial: outside the fragment (script/style elements, {{ }} blocks, multi-line or commented Go expressions, attribute values "
+                      "with character references) idempotence is checked on the implementation only; gofmt is an oracle; file-level nodes "
+                      "(package, imports, css/script templates, Go code between templates) are covered by the implementation-level check only.",
+        "rule": "all .templ files of the repository + 19 seed bodies (x LF/CRLF) + 2500 (40000) grammar-generated files, half of them restricted "
+                "to the printer fragment. Non-trivial = the file is accepted by parse + generate + gofmt (fmt) / at least one template of the file is in the fragment (prt).",
+        "exhaustive": False,
+        "proved": ["C09_print_reparse", "C09_wf_reparse", "C09_stable"],
+        "monitored": ["real fmt(fmt x) = fmt x on every accepted input", "Printer.body = real formatter output", "Reparse.body = real parser on formatted text",
+                      "wfNodes on every parsed tree", "print(reparse t) = print t on every parsed tree of the fragment"],
+        "partial": ["constructs outside the fragment: implementation-level check only"],
+        "trusted_base": ["go/format (oracle)"],
+        "assumptions": STD_ASSUME,
+    },
     "C11": {
         "claimed": True,
         "model_modules": ["TemplVerif.Model.Handler"],
